@@ -6,9 +6,15 @@
     no other directory), and that entry is either (a) not dot-prefixed and was
     shown by stat to be a non-directory, or (b) was shown by stat to be older
     than the age limit relative to the clock reading taken before the scan.
-    The age limit, regenerated from the source, is one hour. *)
+    The age limit, regenerated from the source, is one hour.
+    And the sweep is complete: for arbitrary responses it stats EVERY listed entry
+    of the temp directory and each one measured older than the limit is
+    immediately followed by the unlink of that very path
+    ([C17_sweep_is_complete]); in the kernel model, fault-free, every entry that
+    was measured as a stale non-directory is unbound when the sweep returns
+    ([C17_stale_files_do_go]). *)
 From Coq Require Import List NArith ZArith String Bool.
-From Kismet Require Import Gen.Constants Gen.Agree Pure.Pinned FS.Fs FS.Prog Spec.Wp Ops.Ops Proofs.MaintScope.
+From Kismet Require Import Gen.Constants Gen.Agree Pure.Pinned FS.Fs FS.Prog Spec.Wp Ops.Ops Proofs.MaintScope Seq.Plain Seq.Sane Proofs.TempSweep.
 Import ListNotations.
 
 Theorem C17_maintenance_scope : forall d base s,
@@ -21,6 +27,37 @@ Theorem C17_maintenance_scope_on_every_run : forall d base w o,
   let '(_, _, _, tr) := run (definitely_cleanup d base) w o in
   exists s', mon_run (m_step [base; cd_temp d]) m_init tr = Some s'.
 Proof. exact definitely_cleanup_scope_run. Qed.
+
+(** The sweep is complete relative to what it measures (all responses). *)
+Theorem C17_sweep_is_complete : forall temp s0, w_pend s0 = None ->
+  wp (ws_step temp) (cleanup_temporary_directory temp)
+     (fun r s' => match r with
+                  | Ok _ => w_pend s' = None /\ (w_todo s' = Some [] \/ w_todo s' = w_todo s0)
+                  | _ => True
+                  end) s0.
+Proof. exact sweep_is_complete. Qed.
+
+(** In the kernel model, fault-free: what was measured stale and not a directory is gone. *)
+Theorem C17_stale_files_do_go : forall temp w o, plainp temp = true ->
+  o_fault o = None -> names_plain (w_fs w) ->
+  let '(r, w', _, tr) := run (cleanup_temporary_directory temp) w o in
+  exists s', mon_run (lift (ws_step temp)) (Some (mkW None None None [])) tr = Some (Some s') /\
+    (forall p, In p (w_gone s') -> name_of (w_fs w') p = None) /\
+    match r with Ok _ => w_pend s' = None /\ (w_todo s' = Some [] \/ w_todo s' = None) | _ => True end.
+Proof. intros temp w o Ht. exact (stale_files_do_go temp Ht w o). Qed.
+
+(** The sweep monitor: a stale measurement must be followed at once by the unlink
+    of that path, and a non-directory so removed is recorded as gone. *)
+Theorem C17_sweep_monitor_meaning : forall temp n rest st q,
+  (st_mtime st <? 100)%Z = true ->
+  ws_step temp (mkW (Some 100%Z) (Some (n :: rest)) None []) (EvCall (CStat (temp ++ [n]) false) (RStat st))
+    = Some (mkW (Some 100%Z) (Some rest) (Some (temp ++ [n], st_dir st)) []) /\
+  ws_step temp (mkW (Some 100%Z) (Some rest) (Some (temp ++ [n], false)) []) (EvCall (CUnlink (temp ++ [n])) ROk)
+    = Some (mkW (Some 100%Z) (Some rest) None [temp ++ [n]]) /\
+  ws_step temp (mkW (Some 100%Z) (Some rest) (Some (temp ++ [n], false)) []) (EvCall (CStat q false) (RStat st)) = None.
+Proof.
+  intros temp n rest st q H. cbn [ws_step w_pend w_todo w_thr w_gone]. rewrite !Proofs.PutNeverOverwrites.path_eqb_refl, H. repeat split.
+Qed.
 
 (** Reading the monitor: an unlink is accepted only under this condition. *)
 Theorem C17_what_the_monitor_accepts : forall dirs s p r s',
